@@ -594,6 +594,13 @@ def dispatch(func, name, args, kwargs):
         with _disable_current_modes():
             r = func(*args, **kw)
         return tree_map(_to_sym, r)
+    sch0 = func._schema
+    if sch0.is_mutable and not has_symscalar and not any(isinstance(a, SymTensor) for a in flat):
+        # in-place op on ordinary tensors with concrete operands (e.g. module state counters): run it for real
+        with _disable_current_modes():
+            return func(*args, **kwargs)
+    if sch0.is_mutable and isinstance(args[0], torch.Tensor) and not isinstance(args[0], SymTensor):
+        raise NotEncodable(f"{name}: symbolic value written in place into an ordinary tensor (wrap the module state first)")
     args = tree_map(_to_sym, args)
     kwargs = tree_map(_to_sym, kwargs)
     h = HANDLERS.get(name)
